@@ -18,6 +18,13 @@ def build(run, thorough):
     return c
 
 
+# funds of exec calls: none, one coin, more than the balance, several coins NOT in denom order, a zero amount, a repeated denom
+EXEC_FUNDS = [[], [], [{"denom": "ujuno", "amount": "3"}], [{"denom": "uatom", "amount": "2000"}],
+              [{"denom": "ujuno", "amount": "3"}, {"denom": "uatom", "amount": "1"}],
+              [{"denom": "uatom", "amount": "0"}], [{"denom": "ujuno", "amount": "2"}, {"denom": "uatom", "amount": "0"}],
+              [{"denom": "uatom", "amount": "1"}, {"denom": "uatom", "amount": "2"}]]
+
+
 def js(v):
     return json.dumps(v, separators=(",", ":"), ensure_ascii=False)
 
@@ -38,7 +45,8 @@ def gen_history(rng, p):
         return out
 
     def mk_inst():
-        v = vals(inst, None)
+        # a failing instantiate handler (with and without salt): its error must surface through the proxy unchanged
+        v = vals(inst, None, fail=rng.random() < 0.2)
         st = {"k": "inst", "args": v, "json": js(dict(zip([a.name for a in inst.args], v))), "sender": rng.randint(0, 2),
               "funds": rng.choice([[], [], [{"denom": "uatom", "amount": "5"}], [{"denom": "uatom", "amount": "7"}, {"denom": "ujuno", "amount": "1"}]])}
         if rng.random() < 0.5:
@@ -72,7 +80,7 @@ def gen_history(rng, p):
         body = dict(zip([a.name for a in m.args], v))
         st = {"k": m.kind, "part": part, "method": m.name, "args": v, "json": js({m.name: body}), "sender": rng.randint(0, 2),
               "target": rng.randrange(n_inst),
-              "funds": rng.choice([[], [], [{"denom": "ujuno", "amount": "3"}], [{"denom": "uatom", "amount": "2000"}]]) if m.kind == "exec" else []}
+              "funds": rng.choice(EXEC_FUNDS) if m.kind == "exec" else []}
         steps.append(st)
     return steps
 
@@ -103,7 +111,7 @@ def check(run, replay=None):
             if "__rejected" in c.names[pi]:
                 continue
             # skip programs whose messages carry renamed / aliased wire names (the raw JSON is built from the signature)
-            for _ in range(12 if thorough else 5):
+            for _ in range(30 if thorough else 16):
                 h = gen_history(rng, p)
                 ops.append({"prog": pi, "op": "history", "steps": h})
                 metas.append((pi, h))
